@@ -1,5 +1,6 @@
+\* usize scaled: T wider than C; bounds above CMAX excluded (open finding F1-usize, see RangeSplit_finding_usize.cfg)
 CONSTANTS BODY = "B"  TNEG = 0  TMAX = 31  CNEG = 16  CMAX = 15  BNEG = 0  BHI = 31
-          MAXELEMS = 8  MAXPEERS = 6  REVERSED = FALSE  NEARMAX = TRUE  WRAPPED = FALSE
+          MAXELEMS = 8  MAXPEERS = 6  FIX_REVERSED = TRUE  FIX_CLAMP_START = TRUE  WRAPPED = FALSE
 SPECIFICATION Spec
 INVARIANTS C15_Range
 CHECK_DEADLOCK FALSE
